@@ -69,7 +69,7 @@ def check_func(ctx, case):
         hi_v = Fraction(case['clip'][1][0], case['clip'][1][1])
         bounds = case.get('bounds', 'both')        # both | lo | hi | array | list
         expected = np.array([min(max(v, lo_v) if bounds != 'hi' else v, hi_v) if bounds != 'lo' else max(v, lo_v) for v in A.ravel().tolist()], dtype=object).reshape(A.shape)
-        sig += '/bounds:' + bounds + ('/repr' if case.get('method', 'raw') == 'repr' else '')
+        sig += '/bounds:' + bounds + ('/repr' if case.get('method', 'raw') == 'repr' else '') + ('/min-max-keywords' if case.get('kwnames') and bounds == 'both' else '')
     elif func == 'transpose':
         axes = case.get('axes')
         expected = np.transpose(A, axes=axes)
@@ -106,6 +106,9 @@ def check_func(ctx, case):
                 z = np.clip(x, la, lb) if route == 'numpy' else x.clip(la, lb)
                 if list(la) != [a] * n or list(lb) != [b] * n:
                     raise Mismatch('caller-limits-modified', {'a_min': [float(v) for v in la], 'a_max': [float(v) for v in lb]})
+            elif case.get('kwnames') == 'numpy2':
+                # numpy's newer names of the two limits
+                z = np.clip(x, min=a, max=b) if route == 'numpy' else x.clip(min=a, max=b)
             else:
                 z = np.clip(x, a, b) if route == 'numpy' else x.clip(a, b)
         elif func == 'transpose' and case.get('axes') is not None:
@@ -257,6 +260,8 @@ def st_func(draw):
         case['clip'] = [[a * mul, den], [b * mul, den]]
         case['bounds'] = draw(st.sampled_from(['both', 'lo', 'hi', 'array', 'list', 'fxp', 'fxp']))
         case['method'] = draw(st.sampled_from(['raw', 'repr']))
+        if case['bounds'] == 'both' and draw(st.booleans()):
+            case['kwnames'] = 'numpy2'
     if func == 'transpose':
         kind_t = draw(st.sampled_from(['plain', 'axes', 'axes', 'T']))
         if kind_t == 'axes':
